@@ -200,6 +200,27 @@ def run_history(case, rng, apps, V, hooks, distinct):
                     for k_, v_ in list(registered.items()):
                         if v_ == idx:
                             del registered[k_]
+        elif r < 0.92:
+            # a claimed invocation leaves its runner unfinished: PENDING -> REROUTED, or RUNNING -> RETRY; both put it back into the queue in an
+            # available status that is NOT REGISTERED, so a later submission of the same key must still create a fresh invocation
+            cand = [i for i, s in enumerate(inv_status) if s == "CLAIMED"]
+            if not cand:
+                continue
+            idx = rng.choice(cand)
+            how = rng.choice(["reroute", "retry"])
+            trail.append(["give-back", idx, how])
+            hooks["given_back"] += 1
+            for kind, app in apps.items():
+                set_thread_ctx(app, ctxs[kind])
+                try:
+                    if how == "reroute":
+                        app.orchestrator.reroute_invocations({ids[kind][idx]}, ctxs[kind])
+                    else:
+                        app.orchestrator.set_invocation_status(ids[kind][idx], InvocationStatus.RUNNING, ctxs[kind])
+                        app.orchestrator.set_invocation_retry(ids[kind][idx], RuntimeError("again"), ctxs[kind])
+                finally:
+                    clear_thread_ctx(app)
+            inv_status[idx] = "GIVEN-BACK"
         else:
             # complete a claimed invocation
             cand = [i for i, s in enumerate(inv_status) if s == "CLAIMED"]
